@@ -282,6 +282,10 @@ class _Watchdog:
         return False
 
 
+# calls whose outcome legitimately depends on things a forked copy does not share (real sub-processes, descriptors)
+_NO_HISTORY_CHECK = {"sign_root_metadata_via_gpg", "sign_root_metadata_dict_via_gpg", "sign_via_gpg", "fetch_keyval_from_gpg"}
+
+
 class LibCalls:
     """All calls into validators/verifiers made by any simulated party go through call()."""
 
@@ -302,11 +306,65 @@ class LibCalls:
         mod, k = self.table[name]
         return getattr(mod, k)  # looked up at call time (patches are honoured)
 
+    def fresh_outcome(self, name, args, kw):
+        """(ok, class name) of the same call made by a forked copy of this process whose library state has been put back to what it
+        is right after import - the arguments, the simulated files, clock and callees are exactly the parent's.  None if unavailable."""
+        import os as _os
+        if not hasattr(_os, "fork"):
+            return None
+        rd, wr = _os.pipe()
+        try:
+            pid = _os.fork()
+        except OSError:
+            _os.close(rd); _os.close(wr)
+            return None
+        if pid == 0:
+            code = b"E"
+            try:
+                _os.close(rd)
+                import signal as _sg
+                _sg.alarm(0)
+                reset_library_state()
+                f = self.fn(name)
+                import warnings as _w
+                with self.out, _w.catch_warnings():
+                    if self.werror:
+                        _w.simplefilter("error")
+                    try:
+                        f(*args, **kw)
+                        code = b"1:return"
+                    except Exception as e:  # noqa: BLE001
+                        code = b"0:" + type(e).__name__.encode("ascii", "replace")
+            except BaseException:  # noqa: BLE001
+                code = b"E"
+            finally:
+                try:
+                    _os.write(wr, code)
+                finally:
+                    _os._exit(0)
+        _os.close(wr)
+        data = b""
+        while True:
+            chunk = _os.read(rd, 4096)
+            if not chunk:
+                break
+            data += chunk
+        _os.close(rd)
+        _os.waitpid(pid, 0)
+        if not data or data == b"E":
+            return None
+        ok, _, cls = data.decode("ascii", "replace").partition(":")
+        return (ok == "1", cls)
+
     def call(self, name, *args, **kw):
         """Call a verifier/validator: stdout simulated, C13 + C12 monitors on."""
         run = self.run
         run.libcalls += 1
         f = self.fn(name)
+        if getattr(run, "hist_check", False):
+            pre = self.fresh_outcome(name, args, kw)     # evaluated first: the parent's own call may change its arguments
+        else:
+            pre = None
         before = snapshot((args, kw)) if self.monitor_args else None
         import warnings as _w
         try:
@@ -336,6 +394,13 @@ class LibCalls:
             else:
                 run.rejects += 1
         run.ev("call", name, o.cls)
+        if pre is not None and not run.stop:
+            run.probe("outcome_compared_with_fresh_state")
+            mine = (o.ok, "return" if o.ok else o.cls)
+            if pre != mine:
+                run.violate(("C12",), "outcome-depends-on-history",
+                            "%s gave %s after this run's earlier calls but %s when the same call is made on freshly imported library state"
+                            % (name, mine[1], pre[1]), "outcome-depends-on-history:" + name)
         return o
 
     def faulted(self, name, line_k, exc, *args, **kw):
@@ -380,16 +445,25 @@ class LibCalls:
         returned, not judged."""
         self.run.libcalls += 1
         f = self.fn(name)
+        pre = self.fresh_outcome(name, args, kw) if getattr(self.run, "hist_check", False) and name not in _NO_HISTORY_CHECK else None
         import warnings as _w
         with self.out, _w.catch_warnings():
             if self.werror:
                 _w.simplefilter("error")
             try:
-                return Outcome(True, f(*args, **kw))
+                o = Outcome(True, f(*args, **kw))
             except BaseException as e:  # noqa: BLE001
                 if isinstance(e, (SystemExit, GeneratorExit)):
                     raise
-                return Outcome(False, exc=e)
+                o = Outcome(False, exc=e)
+        if pre is not None and not self.run.stop and isinstance(o.exc, (Exception, type(None))):
+            self.run.probe("outcome_compared_with_fresh_state")
+            mine = (o.ok, "return" if o.ok else o.cls)
+            if pre != mine:
+                self.run.violate(("C12",), "outcome-depends-on-history",
+                                 "%s gave %s after this run's earlier calls but %s when the same call is made on freshly imported library state"
+                                 % (name, mine[1], pre[1]), "outcome-depends-on-history:" + name)
+        return o
 
 
 # ---------------------------------------------------------------------------------- patcher
@@ -994,12 +1068,19 @@ def make_clock_class(state):
         def today(cls):
             return cls.now()
 
+    class SimDate(_dt.date):
+        @classmethod
+        def today(cls):
+            t = SimDateTime.now()
+            return cls(t.year, t.month, t.day)
+
+    SimDate.__name__ = "date"
     SimDateTime.__name__ = "datetime"
     # usable both as the class (`from datetime import datetime`) and as the module (`import datetime`)
     SimDateTime.datetime = SimDateTime
     SimDateTime.timedelta = _dt.timedelta
     SimDateTime.timezone = _dt.timezone
-    SimDateTime.date = _dt.date
+    SimDateTime.date = SimDate
     SimDateTime.UTC = _dt.timezone.utc
     return SimDateTime
 
@@ -1026,6 +1107,21 @@ class SimTimeModule:
     def perf_counter(self):
         return self._s.now
 
+    def monotonic_ns(self):
+        return int(self._s.now * 1e9)
+
+    def perf_counter_ns(self):
+        return int(self._s.now * 1e9)
+
+    def process_time(self):
+        return self._s.now % 1000.0
+
+    def ctime(self, secs=None):
+        return self._t.asctime(self.gmtime(secs))
+
+    def asctime(self, t=None):
+        return self._t.asctime(self.gmtime() if t is None else t)
+
     def sleep(self, s):
         self._s.now += max(0.0, float(s))
 
@@ -1047,9 +1143,24 @@ def install_clock(patcher, lib, state):
     every library module are bound to the simulated versions, whether or not the module uses them today."""
     cls = make_clock_class(state)
     tm = SimTimeModule(state)
+    import time as _time
     for mod in lib.modules:
         patcher.set(mod, "datetime", cls)
         patcher.set(mod, "time", tm)
+        # clocks imported under other names (`import datetime as dt`, `from time import monotonic as _now`, `from datetime import date`)
+        for name, val in list(vars(mod).items()):
+            if name in ("datetime", "time") or name.startswith("__"):
+                continue
+            if val is _time:
+                patcher.set(mod, name, tm)
+            elif val is _dt or val is _dt.datetime:
+                patcher.set(mod, name, cls)
+            elif val is _dt.date:
+                patcher.set(mod, name, cls.date)
+            elif callable(val) and getattr(val, "__module__", None) == "time" and getattr(_time, getattr(val, "__name__", ""), None) is val \
+                    and val.__name__ in ("time", "time_ns", "monotonic", "monotonic_ns", "perf_counter", "perf_counter_ns", "process_time",
+                                         "sleep", "gmtime", "localtime", "strftime", "ctime", "asctime"):
+                patcher.set(mod, name, getattr(tm, val.__name__))
     return cls
 
 
